@@ -276,7 +276,19 @@ def shard_valgrind(sh):
     env = dict(os.environ)
     env['NUMBA_CACHE_DIR'] = os.path.join(os.environ['VF_SCRATCH'], 'nc')  # compiled by the warm-up: valgrind then loads cached code
     env['VF_VALGRIND_CASES'] = '300'
+    # valgrind 3.19 aborts (VEX temporary storage exhausted) on NumPy's AVX2/AVX512 sort kernels, which the harness itself uses
+    # while building the case list: restrict NumPy to its baseline SIMD paths inside this child
+    env['NPY_DISABLE_CPU_FEATURES'] = 'AVX512F AVX512CD AVX512_SKX AVX512_CLX AVX512_CNL AVX512_ICL AVX512_SPR AVX2 FMA3'
     env['VF_VALGRIND_LOG'] = log
+    # the case list is prepared here (outside valgrind) and handed over as plain JSON
+    import json
+    want = int(env['VF_VALGRIND_CASES'])
+    cases = [c for c in case_list('quick', sh.seed) if structure_sig(c[0], c[1], c[2], False)[1] and len(c[1]) >= 20]
+    cases = cases[::max(1, len(cases) // want)][:want + 20]
+    casefile = os.path.join(sh.scratch, 'valgrind-cases.json')
+    with open(casefile, 'w') as f:
+        json.dump([[c[0].tolist(), c[1].tolist(), c[2]] for c in cases], f)
+    env['VF_VALGRIND_CASEFILE'] = casefile
     cmd = ['valgrind', '--tool=memcheck', '--error-exitcode=0', '--log-file=' + log, '--num-callers=12', '--undef-value-errors=yes',
            core.PY, '-c', 'from vf.checks import c04; c04.valgrind_child()']
     try:
@@ -291,6 +303,11 @@ def shard_valgrind(sh):
     text = open(log, errors='replace').read()
     outtxt = open(out, errors='replace').read()
     if 'VERIF-WORKLOAD-BEGIN' not in outtxt or 'VERIF-WORKLOAD-END' not in outtxt:
+        if "the 'impossible' happened" in text or 'VEX temporary storage exhausted' in text or 'valgrind: Fatal' in text:
+            # the tool itself failed: no verdict on the product from this sanitizer (the others are unaffected)
+            sh.classes['valgrind tool failure: no verdict from this sanitizer'] += 1
+            sh.notes['valgrind'] = {'tool_failure': True, 'log_tail': text[-600:]}
+            return
         if p.returncode != 0:
             sh.fail('valgrind', 'abnormal-termination-under-valgrind', {'returncode': p.returncode, 'out_tail': outtxt[-800:], 'log_tail': text[-1500:]})
         else:
@@ -311,18 +328,20 @@ def shard_valgrind(sh):
 
 
 def valgrind_child():
-    """Runs under valgrind: imports, then marks the workload and executes partly-written-buffer cases."""
+    """Runs under valgrind: imports, loads the prepared cases (no NumPy sorting in here: valgrind 3.19 cannot translate NumPy's
+    AVX2 sort kernels), marks the workload and executes the cases."""
+    import json
     import sys
+    import numpy as np
     est, _ = _est()
-    seed = int(os.environ.get('VERIF_SEED', '0'))
-    cases = [c for c in case_list('quick', seed) if structure_sig(c[0], c[1], c[2], False)[1] and len(c[1]) >= 20]
-    cases = cases[::max(1, len(cases) // int(os.environ.get('VF_VALGRIND_CASES', '300')))]
-    # size of the valgrind log so far = loader/import noise to be excluded
+    with open(os.environ['VF_VALGRIND_CASEFILE']) as f:
+        raw = json.load(f)
+    cases = [(np.array(y, dtype=np.int32), np.array(x, dtype=np.int32), r) for y, x, r in raw]
     off = os.path.getsize(os.environ['VF_VALGRIND_LOG']) if os.path.exists(os.environ.get('VF_VALGRIND_LOG', '')) else 0
     print('VERIF-LOG-OFFSET %d' % off)
     print('VERIF-WORKLOAD-BEGIN')
     sys.stdout.flush()
-    for Y, X, r, cls in cases:
+    for Y, X, r in cases:
         for c in (False, True):
             est(Y, X, r, c)
     print('VERIF-CASES %d' % len(cases))
